@@ -109,21 +109,33 @@ def gen_pairs(ctx):
         lo, hi = two_values(rnd, 10, 120, 1)
         pairs.append(('ramey-flow', {'param': 'Production Flow Rate per Well', 'lo': lo, 'hi': hi},
                       replace(cfg, 'Production Flow Rate per Well', lo), replace(cfg, 'Production Flow Rate per Well', hi)))
-    for econm in (1, 2, 3):   # cost inputs and adjustment factors
-        for eu in configs.ENDUSES:
-            for _ in range(n):
-                pl = rnd.choice(configs.ELEC_PLANTS if eu != 2 else [5, 6, 9, 9])
-                cfg = configs.synthetic(rnd, enduse=eu, plant=pl, econ=econm, addons=False)
-                key, lo0, hi0 = rnd.choice(COST_FACTORS)
-                if key in ('Wellfield O&M Cost', 'Surface Plant O&M Cost', 'Water Cost') or 'O&M Cost Adjustment' in key or key == 'Water Cost Adjustment Factor':
-                    cfg = [(k, v) for k, v in cfg if k != 'Total O&M Cost']
-                elif key not in ('Total O&M Cost', 'Annual License Fees Etc'):
-                    cfg = [(k, v) for k, v in cfg if k != 'Total Capital Cost']
-                if key.endswith('Adjustment Factor'):
-                    cfg = [(k, v) for k, v in cfg if k != key.replace(' Adjustment Factor', '')]
-                lo, hi = two_values(rnd, lo0, hi0, 2)
-                pairs.append(('cost', {'param': key, 'lo': lo, 'hi': hi, 'econ': econm, 'enduse': eu, 'plant': pl},
-                              replace(cfg, key, lo), replace(cfg, key, hi)))
+    # cost inputs and adjustment factors: every input x every end-use (the plant-specific ones on their plant), with the
+    # lower value at the input's minimum (0) in a third of the pairs
+    special = [('Heat Pump Capital Cost', 0.1, 8, 2, 6), ('Absorption Chiller Capital Cost', 0.1, 8, 2, 5),
+               ('Absorption Chiller O&M Cost', 0.01, 1, 2, 5)]
+    combos = [(key, lo0, hi0, eu, None) for key, lo0, hi0 in COST_FACTORS for eu in configs.ENDUSES]   # 5-tuples
+    combos += [sp + (j,) for sp in special for j in range(3)]
+    for rep in range(n):
+        for key, lo0, hi0, eu, plant, *which in combos:
+            econm = rnd.choice([1, 2, 3])
+            pl = plant or rnd.choice(configs.ELEC_PLANTS if eu != 2 else [5, 6, 9, 9])
+            cfg = configs.synthetic(rnd, enduse=eu, plant=pl, econ=econm, addons=False)
+            if key in ('Wellfield O&M Cost', 'Surface Plant O&M Cost', 'Water Cost', 'Absorption Chiller O&M Cost') or 'O&M Cost Adjustment' in key \
+                    or key == 'Water Cost Adjustment Factor':
+                cfg = [(k, v) for k, v in cfg if k != 'Total O&M Cost']
+            elif key not in ('Total O&M Cost', 'Annual License Fees Etc'):
+                cfg = [(k, v) for k, v in cfg if k != 'Total Capital Cost']
+            if key.endswith('Adjustment Factor'):
+                cfg = [(k, v) for k, v in cfg if k != key.replace(' Adjustment Factor', '')]
+            if plant:
+                cfg = [(k, v) for k, v in cfg if k != 'Surface Plant Capital Cost']
+            lo, hi = two_values(rnd, lo0, hi0, 2)
+            if which == [0]:                 # the boundary pair: minimum of the input against a small value
+                lo, hi = 0, configs.dec(rnd, lo0, min(hi0, 10 * lo0), 2)
+            elif rnd.random() < 0.34 and not key.startswith('Total'):
+                lo = 0
+            pairs.append(('cost', {'param': key, 'lo': lo, 'hi': hi, 'econ': econm, 'enduse': eu, 'plant': pl},
+                          replace(cfg, key, lo), replace(cfg, key, hi)))
     return pairs
 
 
